@@ -111,7 +111,15 @@ C[PP + '_parse_sequence_middle'] = dict(
                                "old(self).sequence[old(self).position] == '('), self.position > old(self).position)")]},
     decreases={0: 'self.length - self.position'},
     locals=dict(dummy_interval='Optional[Tuple[int,Optional[int],bool,Optional[List[Mod]]]]'))
-C[PP + '_parse_sequence_end'] = dict(_PHASE, invariants={0: _PH_INV}, decreases={0: 'self.length - self.position'})
+# end phase (C01, "chain links that the notation denotes"): when text remains after it, the link flag says which separator was just read
+C[PP + '_parse_sequence_end'] = dict(
+    _PHASE, ensures=_PROGRESS + [
+        ('link-flag-says-which-separator-was-read',
+         "implies(self_final.position < self_final.length, self_final.position >= 1 and self_final._current_connection is not None and "
+         "((self_final.sequence[self_final.position - 1] == '+' and not some(self_final._current_connection)) or "
+         "(self_final.sequence[self_final.position - 1] == '/' and self_final.position >= 2 and self_final.sequence[self_final.position - 2] == '/' "
+         "and some(self_final._current_connection))))")],
+    invariants={0: _PH_INV}, decreases={0: 'self.length - self.position'})
 
 # ---------------------------------------------------------------- the driver: one chain per iteration, every iteration consumes text
 C[PP + '_get_result'] = dict(params=dict(self='Parser'), returns='ParsedChain', pure=True, trusted=True,
